@@ -15,11 +15,11 @@ def x25(bs):
 
 class C07(Prop):
     pid = "C07"
-    lean_targets = ["M17.Props.C07", "M17.Props.C07A", "M17.Props.C07C"]
+    lean_targets = ["M17.Props.C07", "M17.Props.C07A", "M17.Props.C07C", "M17.Props.C07P"]
     theorems = ["M17.C07.lich_slot_in_range", "M17.C07.viterbi_metric_no_overflow", "M17.C07.callsign_index_le_9",
                 "M17.C07.depuncture_fills_buffer", "M17.C07.framer_index_in_range", "M17.C07.packet_size_le_25",
                 "M17.C07.clock_index_in_range", "M17.C07A.repeaters_in_bounds", "M17.C07A.parse_in_bounds",
-                "M17.C07C.free_index_in_range", "M17.C07C.locked_index_in_range"]
+                "M17.C07C.free_index_in_range", "M17.C07C.locked_index_in_range", "M17.C07P.reassembly"]
     level_text = ("Lean 4 range theorems over the models of C01-C05, C11, C17 (for ALL inputs): the LICH slot written is 0..5 and stays inside "
                   "the 30-byte LSF; Viterbi path metrics stay below 2^31 for trellises up to 244 steps (history size); decode_callsign "
                   "writes at most 9 characters into its 10-byte array; depuncture fills exactly its output buffer; the framer's fill index stays "
@@ -28,7 +28,10 @@ class C07(Prop):
                   "number of samples since the last sync word (exact model in units of 2^-20 sample, tied bit-exactly to the real class where the "
                   "float computation is exact, range oracle elsewhere); "
                   "parse_in_bounds: every substr / operator[] / iterator range formed by the model of ax25_frame::parse lies inside the frame, "
-                  "for every frame length and content (model tied to the real class field by field on hostile frames). "
+                  "for every frame length and content (model tied to the real class field by field on hostile frames); C07P.reassembly: the model of m17-demod's "
+                  "decode_packet (tied to the real handler on every app_packets request: flags and buffer size) reassembles a packet cut into segments as the "
+                  "M17 sender cuts it exactly — every content, up to 33 segments, after whatever dump_lsf left in the buffer — and the last result is "
+                  "the X.25 check of exactly those bytes. "
                   "What these theorems cannot exhibit — float-to-int conversions, the Kalman arithmetic, and the application handlers' indexing "
                   "— is checked by running the real receive path (demodulator over the Blaze stand-in + apps/m17-demod.cpp handlers in-process) "
                   "under ASan+UBSan+_GLIBCXX_ASSERTIONS on hostile sample streams, all 368-LLR frames in [-128,127] (shared with C08's garbage "
@@ -259,6 +262,12 @@ class C07(Prop):
                     ctx.stat("packets:valid-fcs-parsed-as-ax25")
             if op == "app_call" and o.isdigit() and int(o) > 9:
                 ctx.violate("rxpath:callsign-length", f"callsign printed by the application has {o} characters", {"stream": "rxpath", "ops": [ln]})
+        # the packet handlers against their model (AppPacket.step / onLsf; theorem C07P.reassembly speaks about this model)
+        pk = [(ln, o) for ln, o in zip(lines, out) if ln.startswith("app_packets") and not o.startswith("<")]
+        if ctx.model_ok and pk:
+            pm = ctx.run_model([ln for ln, _ in pk])
+            ctx.compare("app-packets", [ln for ln, _ in pk], [o for _, o in pk], pm, oracle=lambda ln, a: None, sig=lambda ln: "app-packets")
+            ctx.traces += len(pk)
         # corrupted M17 signal through the whole receive path with the app handlers
         src, dst = "W1AW", "N0CALL"
         audio = [rng.randrange(-8000, 8000) for _ in range(320 * (8 if quick else 40))]
